@@ -19,12 +19,33 @@ TYPED_WRITES = {'write_u8': 1, 'write_i8': 1, 'write_u16': 2, 'write_i16': 2, 'w
                 'write_u64': 8, 'write_i64': 8}
 
 
+READER_OPEN = set()       # paths of the client's open routine: ShmReader::new and the functions it delegates to that also
+                          # return a ShmReader (a crate-internal `open` the public `new` wraps); filled by init_reader_open(fb)
+_RO_FOR = [None]
+
+
+def init_reader_open(fb):
+    if _RO_FOR[0] is fb:
+        return
+    _RO_FOR[0] = fb
+    READER_OPEN.clear()
+    for b in fb.bodies(common.SHM):
+        if b.name == 'new' and (b.impl_self or '').endswith('ShmReader') and b.defkind != 'Closure':
+            READER_OPEN.add(b.path)
+            for ob, bb, t, fn in common.reachable_calls(fb, b):
+                nb = fb.body(mir.callee_name(fn))
+                if nb is not None and nb.defkind != 'Closure' and 'ShmReader' in nb.tystr(nb.locals[0]['ty']) and \
+                        nb.tystr(nb.locals[0]['ty']).startswith(('std::result::Result<clock_bound_shm::reader::ShmReader', 'clock_bound_shm::reader::ShmReader',
+                                                                 'std::result::Result<clock_bound_shm::ShmReader', 'clock_bound_shm::ShmReader')):
+                    READER_OPEN.add(nb.path)
+
+
 def is_reader_new(b):
-    return b.name == 'new' and (b.impl_self or '').endswith('ShmReader')
+    return (b.name == 'new' and (b.impl_self or '').endswith('ShmReader')) or b.path in READER_OPEN
 
 
 def is_probe_call(name):
-    return name.endswith('ShmReader::new')
+    return name.endswith('ShmReader::new') or name in READER_OPEN
 
 
 def _bits(v):
@@ -103,7 +124,7 @@ class StartupPath:
             if n < first:
                 continue
             last = ef['callee'].split('::')[-1]
-            if last in TYPED_WRITES and len(ef['args']) >= 2:
+            if last in TYPED_WRITES and len(ef['args']) >= 2 and 'ByteOrder>::' not in ef['callee'] and 'byteorder::ByteOrder::' not in ef['callee']:
                 out.append(('typed', TYPED_WRITES[last], ef['args'][1], ef))
             elif last in ('write_all', 'write') and ('io::Write' in ef['callee'] or 'File' in ef['callee']) and len(ef['args']) >= 2:
                 buf = ef['pointees'][1] if len(ef.get('pointees') or []) > 1 and ef['pointees'][1] is not None else ef['args'][1]
@@ -179,6 +200,7 @@ class StartupModel:
         chk.saw(self.body)
         from .seqlock_model import pointer_roles
         pointer_roles(fb)
+        init_reader_open(fb)
         self.engine = common.mk_engine(fb, inline_depth=8, no_inline=is_reader_new)
         raw = [p for p in self.engine.run(self.body) if p.kind != 'unreachable']
         chk.analysed['paths'] += len(raw)
